@@ -426,7 +426,7 @@ def l1d_worker(case):
 
 
 def run_l1d(rep, tier, r, exe):
-    n = 200 if tier == "quick" else 1500
+    n = 200 if tier == "quick" else 5000
     cases = path_corpus() + [CP.gen_path_case(r) for _ in range(n)]
     if tier == "quick":
         reals = [l1d_worker(c) for c in cases]
